@@ -36,7 +36,16 @@ impl Server {
     }
 
     fn spawn(&mut self) {
-        let mut child = Command::new(&self.bin)
+        // Every other binary runs in an East-Asian locale: what a lexer returns must not depend on
+        // the process environment (e.g. on locale-dependent display widths).
+        let odd = self.bin.to_string_lossy().bytes().last().map(|b| b % 2 == 1).unwrap_or(false);
+        let mut cmd = Command::new(&self.bin);
+        if odd {
+            cmd.env("LC_ALL", "ja_JP.UTF-8").env("LC_CTYPE", "ja_JP.UTF-8").env("LANG", "zh_CN.UTF-8");
+        } else {
+            cmd.env("LC_ALL", "C").env("LANG", "C");
+        }
+        let mut child = cmd
             .env("VERIF_CASE_TIMEOUT_MS", self.timeout_ms.to_string())
             .stdin(Stdio::piped())
             .stdout(Stdio::piped())
